@@ -275,22 +275,100 @@ monitoring_stub!(mon_reserve_limit_2, 2);
 
 #[cfg(test)]
 mod native_alloc {
+    // Only compiled for the NATIVE replay of a counterexample (cargo kani playback = cfg(test)); Kani never sees it.
+    // It stands in for what CBMC models and a native run cannot observe: the size of every allocation request (stubs are
+    // not applied natively) and writes past the end of a heap allocation (CBMC's pointer checks; natively silent UB).
+    // Every allocation is padded with GUARD bytes of a known pattern; `verif_guards_intact` inspects all live ones.
     extern crate std;
     use core::alloc::{GlobalAlloc, Layout};
     use core::sync::atomic::{AtomicUsize, Ordering};
     pub static LARGEST: AtomicUsize = AtomicUsize::new(0);
+    const GUARD: usize = 64;
+    const PATTERN: u8 = 0xA5;
+    const SLOTS: usize = 4096;
+    static PTRS: [AtomicUsize; SLOTS] = [const { AtomicUsize::new(0) }; SLOTS];
+    static SIZES: [AtomicUsize; SLOTS] = [const { AtomicUsize::new(0) }; SLOTS];
+    static CORRUPTED: AtomicUsize = AtomicUsize::new(0);
+    fn padded(l: Layout, size: usize) -> Layout {
+        Layout::from_size_align(size + GUARD, l.align()).unwrap()
+    }
+    unsafe fn arm(p: *mut u8, size: usize) {
+        if p.is_null() {
+            return;
+        }
+        unsafe { core::ptr::write_bytes(p.add(size), PATTERN, GUARD) };
+        let mut i = 0;
+        while i < SLOTS {
+            if PTRS[i].compare_exchange(0, p as usize, Ordering::SeqCst, Ordering::SeqCst).is_ok() {
+                SIZES[i].store(size, Ordering::SeqCst);
+                return;
+            }
+            i += 1;
+        }
+        // table full: this allocation is simply not watched
+    }
+    unsafe fn intact(p: *const u8, size: usize) -> bool {
+        let mut j = 0;
+        while j < GUARD {
+            if unsafe { *p.add(size + j) } != PATTERN {
+                return false;
+            }
+            j += 1;
+        }
+        true
+    }
+    unsafe fn disarm(p: *mut u8, size: usize) {
+        let mut i = 0;
+        while i < SLOTS {
+            if PTRS[i].load(Ordering::SeqCst) == p as usize {
+                if !unsafe { intact(p, size) } {
+                    CORRUPTED.fetch_add(1, Ordering::SeqCst);
+                }
+                SIZES[i].store(0, Ordering::SeqCst);
+                PTRS[i].store(0, Ordering::SeqCst);
+                return;
+            }
+            i += 1;
+        }
+    }
+    /// true iff no write has landed in the guard region behind any heap allocation, live or already released
+    #[no_mangle]
+    pub extern "Rust" fn verif_guards_intact() -> bool {
+        if CORRUPTED.load(Ordering::SeqCst) != 0 {
+            return false;
+        }
+        let mut i = 0;
+        while i < SLOTS {
+            let p = PTRS[i].load(Ordering::SeqCst);
+            if p != 0 && !unsafe { intact(p as *const u8, SIZES[i].load(Ordering::SeqCst)) } {
+                return false;
+            }
+            i += 1;
+        }
+        true
+    }
     pub struct Counting;
     unsafe impl GlobalAlloc for Counting {
         unsafe fn alloc(&self, l: Layout) -> *mut u8 {
             LARGEST.fetch_max(l.size(), Ordering::Relaxed);
-            unsafe { std::alloc::System.alloc(l) }
+            let p = unsafe { std::alloc::System.alloc(padded(l, l.size())) };
+            unsafe { arm(p, l.size()) };
+            p
         }
         unsafe fn dealloc(&self, p: *mut u8, l: Layout) {
-            unsafe { std::alloc::System.dealloc(p, l) }
+            unsafe { disarm(p, l.size()) };
+            unsafe { std::alloc::System.dealloc(p, padded(l, l.size())) }
         }
         unsafe fn realloc(&self, p: *mut u8, l: Layout, new_size: usize) -> *mut u8 {
             LARGEST.fetch_max(new_size, Ordering::Relaxed);
-            unsafe { std::alloc::System.realloc(p, l, new_size) }
+            unsafe { disarm(p, l.size()) };
+            let q = unsafe { std::alloc::System.realloc(p, padded(l, l.size()), new_size + GUARD) };
+            if q.is_null() {
+                unsafe { arm(p, l.size()) };
+            } else {
+                unsafe { arm(q, new_size) };
+            }
+            q
         }
     }
     #[global_allocator]
